@@ -234,13 +234,24 @@ type candRes struct {
 	verdict
 }
 
+type heldViolation struct{ rn, class, what string }
+
 type caseCtx struct {
-	run    *ev.Run
-	idx    int
-	w      *opdrv.World
-	reg    registration
-	other  *vclient.Client
-	cfg    map[string]any
+	run   *ev.Run
+	idx   int
+	w     *opdrv.World
+	reg   registration
+	other *vclient.Client
+	cfg   map[string]any
+	// overlap.go: the second generated registration ("c03b"); the class prefix of violations that only an overlap
+	// produced; the number of violations this case reported so far
+	second    registration
+	keyPrefix string
+	nviol     int
+	// overlap.go: violations are held back until the step that produced them has been repeated with no other case running
+	hold   bool
+	held   []heldViolation
+	pendRn string
 	sample bool
 	// a request with a URI that is not allowed was accepted at /authorize: reported once, after the rest of the
 	// chain has been played, so that the witness shows where the user agent finally ended up
@@ -544,8 +555,13 @@ func (cx *caseCtx) judge(rn, phase string, spec chainSpec, resp *opdrv.Resp, sl 
 			cx.count("violation_consequences", rn+" "+class)
 			return
 		}
-		sl.Outcome = "VIOLATION " + class
-		run.Violation("C03:"+rn+":"+class, int64(cx.idx), what, witness())
+		sl.Outcome = "VIOLATION " + cx.keyPrefix + class
+		if cx.hold {
+			cx.held = append(cx.held, heldViolation{rn, class, what})
+			return
+		}
+		cx.nviol++
+		run.Violation("C03:"+rn+":"+cx.keyPrefix+class, int64(cx.idx), what, witness())
 	}
 	// seq: this response is an auto-submitting page and an earlier page of that kind was produced by the same provider;
 	// what became of the earlier one (delivered / connection broke) is part of the history that is judged
@@ -604,7 +620,7 @@ func (cx *caseCtx) judge(rn, phase string, spec chainSpec, resp *opdrv.Resp, sl 
 				return outcome("login-redirect")
 			}
 			if !anyOK {
-				cx.pendKey, cx.pendWhy = "C03:"+rn+":accepted-unregistered:", firstWhy
+				cx.pendKey, cx.pendWhy, cx.pendRn = "C03:"+rn+":"+cx.keyPrefix+"accepted-unregistered:", firstWhy, rn
 				cx.pendWhat = fmt.Sprintf("authorization request with redirect_uri %q (oracle: %s) was accepted and the user agent was redirected to the login UI; the statement demands a direct error page (see the later steps for where the user agent was finally sent)", cands, firstWhy)
 				sl.Outcome = "VIOLATION accepted-unregistered:" + firstWhy
 				cx.count("outcome:"+rn, "authorize login-redirect-for-unregistered")
